@@ -211,7 +211,7 @@ def ns_fault_obligations(prefix, pid, transfers):
             id='%s.ns-%s' % (pid, tr), impl='nsfaulted', params=NS_PARAMS, cases=[(prefix, tr)],
             pre=shape + ['0 <= phase <= 1', '-1 <= fault_at <= 30', '-1 <= p1 <= 50', '0 <= k1 <= 1'],
             splits=[[r, 'p1 == -1', 'k1 == 0'] for r in rng],
-            splits_thorough=[[r, q] for r in rng for q in ('p1 <= 15', '15 < p1 <= 30', '30 < p1')],
+            splits_thorough=[[r, q] for r in rng for q in ('p1 <= 25', '25 < p1')],
             timeout=(170, 1500),
             bounds='2-part transfer over model executors: one fault at a symbolic environment call (0..29), before / '
                    'after the effect; laziest schedule (queued tasks start only when something blocks on them), '
